@@ -67,7 +67,10 @@ func DigestXapTar(r io.Reader, hash crypto.Hash, doPageHash bool) (*XapDigest, e
 	if _, err := io.CopyN(d, tr, bodySize); err != nil {
 		return nil, err
 	}
-	cd = removeSignature(cd)
+	cd, err := removeSignature(cd)
+	if err != nil {
+		return nil, err
+	}
 	d.Write(cd)
 	zipSize := bodySize + int64(len(cd))
 	return &XapDigest{
@@ -78,15 +81,21 @@ func DigestXapTar(r io.Reader, hash crypto.Hash, doPageHash bool) (*XapDigest, e
 	}, nil
 }
 
-func removeSignature(cd []byte) []byte {
+func removeSignature(cd []byte) ([]byte, error) {
 	size := len(cd)
+	if size < 10 {
+		return nil, errors.New("invalid tarzip: central directory is missing or too short")
+	}
 	var tr xapTrailer
 	_ = binary.Read(bytes.NewReader(cd[size-10:size]), binary.LittleEndian, &tr)
 	if tr.Magic == trailerMagic {
+		if int64(tr.TrailerSize)+10 > int64(size) {
+			return nil, errors.New("invalid xap file: bad signature trailer size")
+		}
 		size -= int(tr.TrailerSize) + 10
-		return cd[:size]
+		return cd[:size], nil
 	}
-	return cd
+	return cd, nil
 }
 
 func (d *XapDigest) Sign(ctx context.Context, cert *certloader.Certificate, params *authenticode.OpusParams) (*binpatch.PatchSet, *pkcs9.TimestampedSignature, error) {
